@@ -15,14 +15,21 @@ func Read[T allowedGenericTypes](reader io.Reader) (result T, err error) {
 }
 
 func ReadBytes(reader io.Reader, length int) ([]byte, error) {
-	readBytes := make([]byte, length)
+	if length < 0 {
+		return nil, ierrors.Errorf("failed to read serialized bytes: invalid size (%d)", length)
+	}
 
-	nBytes, err := reader.Read(readBytes)
+	// The length often comes from an untrusted length prefix, so the buffer must not be allocated upfront:
+	// it grows with the data that is actually delivered by the reader.
+	readBytes, err := io.ReadAll(io.LimitReader(reader, int64(length)))
 	if err != nil {
 		return nil, ierrors.Wrap(err, "failed to read serialized bytes")
 	}
-	if nBytes != length {
-		return nil, ierrors.Errorf("failed to read serialized bytes: read bytes (%d) != size (%d)", nBytes, length)
+	if len(readBytes) == 0 && length > 0 {
+		return nil, ierrors.Wrap(io.EOF, "failed to read serialized bytes")
+	}
+	if len(readBytes) != length {
+		return nil, ierrors.Errorf("failed to read serialized bytes: read bytes (%d) != size (%d)", len(readBytes), length)
 	}
 
 	return readBytes, nil
